@@ -45,6 +45,8 @@ class Worktree:
             raise RuntimeError(out)
         if self.patch is not None:
             rc, out = sh(["git", "-C", str(self.dir), "apply", str(self.patch)])
+            if rc != 0:  # later fix: commits may have moved the context lines
+                rc, out = sh(["git", "-C", str(self.dir), "apply", "-C1", str(self.patch)])
             if rc != 0:
                 self.__exit__(None, None, None)
                 raise RuntimeError(f"patch does not apply: {out}")
